@@ -274,3 +274,4 @@ def fidelity(tier, seed):
 from contracts import c01_special  # noqa: real/complex dilogarithm, Clausen
 from contracts import c01_fps  # noqa: f_PS family definitions
 from contracts import ieee_finite as _ieee; _ieee.register('C01')  # noqa: IEEE finiteness on the whole domain
+from contracts import spec_source as _ss; _ss.register_c01()  # noqa: provenance of the transcribed definitions (math/ffunctions.m)
